@@ -2658,3 +2658,191 @@ func TestVerifReplay(t *testing.T) {
 	}
 }
 `
+
+// ---------- C17 (syncutils) ----------
+func init() { replayGens["c17"] = replayC17 }
+
+func replayC17(o *Obligation) (string, string, string, bool) {
+	if !strings.HasPrefix(o.Name, "syncutils.") {
+		return "", "", "", false
+	}
+	src := `package syncutils
+
+import (
+	"sync"
+	"sync/atomic"
+	"testing"
+	"time"
+)
+
+// oracle: exclusion (a writer excludes everybody), no lost wake-up (a waiter whose condition became true returns),
+// waits return only when their condition holds, misuse panics without corrupting the state.
+func TestVerifReplay(t *testing.T) {
+	fail := func(format string, a ...any) { t.Fatalf("REPLAY-VIOLATION "+format, a...) }
+	returns := func(d time.Duration, f func()) bool {
+		done := make(chan struct{})
+		go func() { f(); close(done) }()
+		select {
+		case <-done:
+			return true
+		case <-time.After(d):
+			return false
+		}
+	}
+
+	// (1) StarvingMutex: exclusion under contention, every goroutine gets through
+	{
+		m := NewStarvingMutex()
+		var writers, readers atomic.Int32
+		var bad atomic.Value
+		var wg sync.WaitGroup
+		for g := 0; g < 6; g++ {
+			wg.Add(1)
+			go func(g int) {
+				defer wg.Done()
+				for i := 0; i < 300; i++ {
+					if g%3 == 0 {
+						m.Lock()
+						if writers.Add(1) != 1 || readers.Load() != 0 {
+							bad.Store("a writer was granted while another grant was outstanding")
+						}
+						writers.Add(-1)
+						m.Unlock()
+					} else {
+						m.RLock()
+						readers.Add(1)
+						if writers.Load() != 0 {
+							bad.Store("a reader was granted while a writer held the mutex")
+						}
+						readers.Add(-1)
+						m.RUnlock()
+					}
+				}
+			}(g)
+		}
+		if !returns(20*time.Second, wg.Wait) {
+			fail("StarvingMutex: goroutines are blocked forever (lost wake-up)")
+		}
+		if b := bad.Load(); b != nil {
+			fail("StarvingMutex: %s", b.(string))
+		}
+	}
+
+	// (2) DAGMutex: releasing an entity that is not held panics and leaves the registry untouched; afterwards the entity
+	// behaves like a fresh one
+	{
+		d := NewDAGMutex[int]()
+		panicked := false
+		func() {
+			defer func() { panicked = recover() != nil }()
+			d.RUnlock(7)
+		}()
+		if !panicked {
+			fail("DAGMutex.RUnlock of an entity that is not held did not panic")
+		}
+		if !d.consumerCounter.IsEmpty() || !d.mutexes.IsEmpty() {
+			fail("DAGMutex: the panicking RUnlock modified the registry (%d counters, %d mutexes)", d.consumerCounter.Size(), d.mutexes.Size())
+		}
+		d.RLock(7)
+		d.RLock(7)
+		d.RUnlock(7)
+		granted := make(chan struct{})
+		go func() { d.Lock(7); close(granted) }()
+		select {
+		case <-granted:
+			fail("DAGMutex: a writer was granted entity 7 while a reader still holds it")
+		case <-time.After(200 * time.Millisecond):
+		}
+		d.RUnlock(7)
+		select {
+		case <-granted:
+		case <-time.After(3 * time.Second):
+			fail("DAGMutex: the writer is still blocked 3s after the last reader released entity 7 (lost wake-up)")
+		}
+		d.Unlock(7)
+		if !d.consumerCounter.IsEmpty() || !d.mutexes.IsEmpty() {
+			fail("DAGMutex: entity 7 is still registered after its last consumer left")
+		}
+	}
+
+	// (3) Counter: waiters with different thresholds are all woken by the change that satisfies them (Set and Update), and
+	// only then
+	{
+		for _, useSet := range []bool{true, false} {
+			c := NewCounter()
+			c.Set(5)
+			var below3, isZero atomic.Bool
+			go func() { c.WaitIsBelow(3); below3.Store(true) }()
+			go func() { c.WaitIsZero(); isZero.Store(true) }()
+			time.Sleep(100 * time.Millisecond)
+			if below3.Load() || isZero.Load() {
+				fail("Counter: a Wait returned although its condition does not hold (value 5)")
+			}
+			if useSet {
+				c.Set(0)
+			} else {
+				c.Update(-5)
+			}
+			deadline := time.Now().Add(3 * time.Second)
+			for time.Now().Before(deadline) && !(below3.Load() && isZero.Load()) {
+				time.Sleep(time.Millisecond)
+			}
+			if !below3.Load() || !isZero.Load() {
+				fail("Counter (Set=%v): value went from 5 to 0 but WaitIsBelow(3) returned: %v, WaitIsZero returned: %v (lost wake-up)", useSet, below3.Load(), isZero.Load())
+			}
+			var above atomic.Bool
+			go func() { c.WaitIsAbove(2); above.Store(true) }()
+			time.Sleep(50 * time.Millisecond)
+			if useSet {
+				c.Set(3)
+			} else {
+				c.Update(3)
+			}
+			deadline = time.Now().Add(3 * time.Second)
+			for time.Now().Before(deadline) && !above.Load() {
+				time.Sleep(time.Millisecond)
+			}
+			if !above.Load() {
+				fail("Counter (Set=%v): value went from 0 to 3 but WaitIsAbove(2) did not return (lost wake-up)", useSet)
+			}
+		}
+	}
+
+	// (4) Stack: WaitIsEmpty returns only when empty; one Push wakes every waiter whose size is reached
+	{
+		s := NewStack[int]()
+		s.Push(1)
+		s.Push(2)
+		var empty atomic.Bool
+		go func() { s.WaitIsEmpty(); empty.Store(true) }()
+		time.Sleep(50 * time.Millisecond)
+		s.Pop()
+		time.Sleep(200 * time.Millisecond)
+		if empty.Load() {
+			fail("Stack.WaitIsEmpty returned while one element is still on the stack")
+		}
+		s.Pop()
+		deadline := time.Now().Add(3 * time.Second)
+		for time.Now().Before(deadline) && !empty.Load() {
+			time.Sleep(time.Millisecond)
+		}
+		if !empty.Load() {
+			fail("Stack.WaitIsEmpty did not return after the last element was popped (lost wake-up)")
+		}
+		var w1, w2 atomic.Bool
+		go func() { s.WaitSizeIsAbove(0); w1.Store(true) }()
+		go func() { s.WaitSizeIsAbove(0); w2.Store(true) }()
+		time.Sleep(100 * time.Millisecond)
+		s.Push(9)
+		deadline = time.Now().Add(3 * time.Second)
+		for time.Now().Before(deadline) && !(w1.Load() && w2.Load()) {
+			time.Sleep(time.Millisecond)
+		}
+		if !w1.Load() || !w2.Load() {
+			fail("Stack: one Push satisfied two waiters of WaitSizeIsAbove(0), but only %v / %v returned (a Signal wakes one sleeper only)", w1.Load(), w2.Load())
+		}
+	}
+}
+`
+	return "runtime", "syncutils", src, true
+}
